@@ -37,12 +37,35 @@ theorem pod_roundtrip_table (P : Params) (hP : P.Lawful) :
   fun r hr a v hv hw =>
     pod_roundtrip P hP r.desc (Row.desc_wf r (Capella.Gen.Pods.podTable_wf r hr)) a v hv hw
 
-/-- Reading back is a fixpoint ("repair is idempotent", "millisecond precision"): the value read
-back is itself valid and stands for itself, so a second write/read cycle returns the same value. -/
-theorem readback_fixpoint (P : Params) (hP : P.Lawful) (d : Desc) (hd : d.wf = true)
-    (v : PyVal P) (hv : valid P d v = true) :
+/-- The statement's "repair is idempotent", read literally for a parameter instance: reading back
+is a fixpoint for every valid value. -/
+def readback_fixpoint_full (P : Params) : Prop :=
+  ∀ (d : Desc), d.wf = true → ∀ v : PyVal P, valid P d v = true →
+    valid P d (denote P d v) = true ∧ denote P d (denote P d v) = denote P d v
+
+/-- **Reading back is a fixpoint** ("repair is idempotent", "millisecond precision") — the part
+that holds: on every valid value *on which `repair_html` is stable after one pass* (`stableAt`:
+all non-HTML values, and the HTML fragments whose repaired form repairs to itself) the value read
+back is itself valid and stands for itself, so a second write/read cycle returns the same value.
+libxml2 does not give this for raw-text elements (`<script>a<b</script>`): known finding
+`repair_html|not-idempotent|rawtext-element`, judged by the monitor. -/
+theorem readback_fixpoint_partial (P : Params) (hP : P.Lawful) (d : Desc) (hd : d.wf = true)
+    (v : PyVal P) (hv : valid P d v = true) (hst : stableAt P d v = true) :
     valid P d (denote P d v) = true ∧ denote P d (denote P d v) = denote P d v :=
-  valid_denote hP d hd v hv
+  valid_denote hP d hd v hv hst
+
+/-- The stability hypothesis cannot be dropped: for a lawful parameter instance whose `repair` is
+not idempotent (it prepends a character on every pass — as libxml2 re-escapes raw text on every
+pass) the full statement fails. -/
+theorem readback_fixpoint_full_fails : ∃ P : Params, P.Lawful ∧ ¬ readback_fixpoint_full P := by
+  refine ⟨Toy.growing, Toy.growing_lawful, ?_⟩
+  intro h
+  have h2 := (h ⟨.html, ['d'], true⟩ rfl (.str ['a']) rfl).2
+  have e1 : denote Toy.growing ⟨.html, ['d'], true⟩ (.str ['a']) = .str ['x', 'a'] := rfl
+  have e2 : denote Toy.growing ⟨.html, ['d'], true⟩ (.str ['x', 'a']) = .str ['x', 'x', 'a'] := rfl
+  rw [e1, e2] at h2
+  injection h2 with h3
+  exact absurd h3 (by decide)
 
 /-- **Default elision.** Assigning `None`, or a value that is not different from the default
 (`value != default` is false), removes the XML attribute (and leaves every other attribute alone). -/
